@@ -348,8 +348,9 @@ def main(argv=None):
             found = None
             rp = v.get('replay')
             if rp and rp.get('failures'):
-                found = dict(source='solver counter-model replayed on the real function',
-                             args=rp.get('args'), **rp['failures'][0])
+                found = dict(rp['failures'][0])
+                found['source'] = 'solver counter-model replayed on the real function'
+                found.setdefault('args', rp.get('args'))
             elif rp:
                 v['model_replay'] = dict(status=rp.get('status'), args=rp.get('args'), note=rp.get('note'),
                                          outcome='the real function satisfied the contract on the model input '
